@@ -301,7 +301,7 @@ impl Prop for C04 {
         if den >= 1e-3 * sc.tot_weighted && den > 0.0 {
             let rt = crate::tol::ratio_tol(tol(sc.tot_weighted, sc.n), den);
             for (name, a, b) in [("rer", ep.rer, ep2.rer), ("rer_nrb", ep.rer_nrb, ep2.rer_nrb), ("rer_onst", ep.rer_onst, ep2.rer_onst)] {
-                ensure!(((a - b).abs() as f64) <= rt, "area_invariance", "{} changes with the area: {} vs {}", name, a, b);
+                ensure!(((a - b).abs() as f64) <= rt * (1.0 + a.abs().max(b.abs()) as f64), "area_invariance", "{} changes with the area: {} vs {}", name, a, b);
             }
         } else {
             ctx.skip("ratio_den_noise");
